@@ -97,6 +97,9 @@ class Verifier(Engine):
             return Py("class", (cd.file, name))
         if name in ("True", "False"):
             return mk_bool(name == "True")
+        con = self.frame.contract
+        if con is not None and name in con.callables:
+            return Py("contractfn", con.callables[name])
         if name in dir(__import__("builtins")):
             return Py("builtin", name)
         raise Unsupported("unknown name %s" % name)
@@ -352,15 +355,36 @@ class Verifier(Engine):
 
     def ev_List(self, n):
         vals = []
+        starred = [e for e in n.elts if isinstance(e, ast.Starred)]
+        if starred:
+            return self.list_with_star(n)
         for e in n.elts:
-            if isinstance(e, ast.Starred):
-                raise Unsupported("starred list element")
             vals.append(self.ev_v(e))
         h = getattr(self, "_assign_hint", None)
         if h is not None and h.kind == "list":
             return self.new_list(h, vals)
         et = vals[0].ty if vals else self.hint_elem_type()
         return self.new_list(Ty("list", et), vals)
+
+    def list_with_star(self, n):
+        """[*xs, a, b]: a fresh list = copy of xs followed by the remaining items (only a leading star)."""
+        if not isinstance(n.elts[0], ast.Starred) or any(isinstance(e, ast.Starred) for e in n.elts[1:]):
+            raise Unsupported("starred element not in first position")
+        src = self.ev_v(n.elts[0].value)
+        if src.ty.kind not in ("list", "seq"):
+            raise Unsupported("star of %r" % (src.ty,))
+        h = getattr(self, "_assign_hint", None)
+        out_t = h if (h is not None and h.kind == "list") else Ty("list", src.ty.elem)
+        r = self.new_list(out_t, [])
+        key, srt = self.el_key(out_t)
+        m = self.seq_len(src)
+        arr = self.seq_arr(src)
+        rest = [self.coerce(self.ev_v(e), out_t.elem) for e in n.elts[1:]]
+        for k_, it in enumerate(rest):
+            arr = z3.Store(arr, m + k_, it.t)
+        self.hset(key, z3.Store(self.hget(key, srt), r.t, arr))
+        self.hstore(self.k_len(out_t), r.t, m + len(rest))
+        return r
 
     def hint_elem_type(self):
         h = getattr(self, "_assign_hint", None)
@@ -549,6 +573,11 @@ class Verifier(Engine):
                 return self.construct(p, args, kwargs)
             if k == "ext":
                 return self.call_ext(p, None, args, kwargs)
+            if k == "contractfn":
+                c2 = self.reg.contracts.get(p)
+                if c2 is None:
+                    raise Unsupported("callable contract %s missing" % p)
+                return self.apply_contract(c2, None, args, kwargs)
             if k == "superbound":
                 return self.call_function(p[1], p[2], p[0], args, kwargs)
             if k == "lambda":
@@ -1140,6 +1169,9 @@ class Verifier(Engine):
         for nme in names:
             if nme not in env and nme in defaults:
                 env[nme] = self.ev(defaults[nme])
+        for nme, dexpr in con.defaults.items():
+            if nme not in env:
+                env[nme] = self.spec_value(dexpr, {})
         # coerce to declared types
         for nme, tstr in con.params.items():
             if nme in env and isinstance(env[nme], V):
